@@ -83,7 +83,7 @@ def programs(tier):
         policies = ["all", "1", "7"]
     else:
         msgsets = [([0, 1, 100], [16384]), ([16385, 1], [40000]), ([40000, 16384, 1], [100, 0]),
-                   ([1], [1]), ([], [16385]), ([70000], []), ([], [140000, 1])]
+                   ([1], [1]), ([], [16385]), ([70000], [])]
         recvs = [1, 7, 65536]
         policies = ["all", "1", "2", "7"]
     for ver in ("1.2", "1.3"):
